@@ -116,6 +116,14 @@ def handle (d : DS) : List String → Option (DS × String)
   | "chk" :: "c12.accepted" :: _tag :: r :: kind :: acc :: rest => do
       let r ← parseReg r; let k ← parseKind kind; let acc ← parseBool acc; let m ← parseMsg rest
       some (d, toString (acceptedOK r k m acc))
+  | ["chk", "c12.regstored", _tag, before, kind, arg, after] => do
+      let before ← parseReg before; let after ← parseReg after
+      let e ← match kind with
+        | "register" => (parseEntry arg).map Edit.register
+        | "deregister" => some (Edit.deregister arg)
+        | "set" => (parseReg arg).map Edit.setRegistry
+        | _ => none
+      some (d, toString (regStoredOK before e after))
   | ["chk", "c12.refused", _tag, acc, same] => do
       let acc ← parseBool acc; let same ← parseBool same
       some (d, toString (refusedOK acc same))
